@@ -4,6 +4,7 @@ package c11
 import (
 	"encoding/json"
 	"fmt"
+	"regexp"
 	"strings"
 	"testing"
 
@@ -82,9 +83,17 @@ func roundTrip(sys semver.System, cs string, pool []string, onEval func(v, text 
 // largest value Parse accepts) under ">" is stepped to the internal infinity,
 // which then appears as a *lower* bound in the set text ("{[1.∞.∞:∞.∞.∞]}");
 // ParseSetConstraint accepts ∞ only in upper bounds.
+var nugetFloat4 = regexp.MustCompile(`^[0-9]+\.[0-9]+\.[0-9]+\.\*$`)
+
 func knownClass(sys semver.System, f failure, cs string) string {
 	if f.law == "set-text-parses" && strings.Contains(cs, "9223372036854775806") && kf.Open("C11", "InfinityMinusOneBound") {
 		return "InfinityMinusOneBound"
+	}
+	// NuGetFourComponentFloating: "1.2.3.*" prints a lower bound with a zero
+	// fourth component ("[1.2.3.0:...)"), which the version parser drops
+	// again, so the text is not a fix-point.
+	if sys == semver.NuGet && f.law == "set-text-fixpoint" && nugetFloat4.MatchString(strings.TrimSpace(cs)) && kf.Open("C11", "NuGetFourComponentFloating") {
+		return "NuGetFourComponentFloating"
 	}
 	return ""
 }
